@@ -2,16 +2,18 @@
 (* one TLC state per catalogued formula: the declaration the code computes (transcribed) next to the derived one.
    `tab` is the whole table (evaluated once, identical in every state), f the formula the state is about. *)
 EXTENDS ParityAlg
-CONSTANT Mutate     \* "" or the name of a formula whose declared TR factor is flipped (sensitivity self-test)
+CONSTANT Mutate     \* "" or the name of a formula whose declared TR factor is flipped (sensitivity self-test), or
+                    \* "@literal_only": products count only factors whose transform is a literal module constant (must fail on nested products)
 VARIABLES tab, f, kind, dTR, dInv, eTR, eInv
 vars == <<tab, f, kind, dTR, dInv, eTR, eInv>>
 Flip(t) == [t EXCEPT !.factor = -t.factor]
-DeclaredM(g) == IF g = Mutate THEN Pair(Flip(Declared(g).tr), Declared(g).inv) ELSE Declared(g)
+DeclaredM(g) == IF Mutate = "@literal_only" THEN DeclaredLit(g)
+                ELSE IF g = Mutate THEN Pair(Flip(Declared(g).tr), Declared(g).inv) ELSE Declared(g)
 IsScalar(e) == e[1] \in {"el", "dk", "mul", "com", "plus"}
-Table == [g \in Formulas |-> [decl |-> DeclaredM(g), exp |-> Expected(g), phys |-> Catalogue[g].phys, kind |-> Catalogue[g].kind,
-                              par |-> IF IsScalar(Catalogue[g].phys) THEN Par(Catalogue[g].phys) ELSE <<0, 0>>]]
+Table == [g \in AllNames |-> [decl |-> DeclaredM(g), exp |-> Expected(g), phys |-> Entry(g).phys, kind |-> Entry(g).kind,
+                              par |-> IF IsScalar(Entry(g).phys) THEN Par(Entry(g).phys) ELSE <<0, 0>>]]
 Init == /\ tab = Table
-        /\ f \in Formulas
+        /\ f \in AllNames
         /\ kind = tab[f].kind
         /\ dTR = tab[f].decl.tr /\ dInv = tab[f].decl.inv
         /\ eTR = tab[f].exp.tr /\ eInv = tab[f].exp.inv
@@ -41,6 +43,9 @@ Pars == {<<a, b>> : a \in {1, -1}, b \in {1, -1}}
 (* all four parity classes occur among the catalogued scalar formulas *)
 AllClassesPresent == {tab[g].par : g \in {h \in Formulas : ScalarPhys(h)}} = Pars
 
+(* nested products: some inner node of the tree is odd (non-vacuity of the input class), checked once *)
+ASSUME \E n \in NestedNames : \E j \in 1..Len(Nested[n].decl[2]) :
+          Nested[n].decl[2][j][1] \in {"prod", "sum", "same", "ref"} /\ ~IsLiteral(Nested[n].decl[2][j]) /\ DeclOf(Nested[n].decl[2][j]).tr.factor = -1
 (* algebra of the derivation itself, checked once *)
 ASSUME \A t \in Predefined : IsInvolution(t)
 ASSUME \A s, t \in Predefined : LET p == TransformProduct(<<s, t>>) IN p = RaiseT \/ (IsTransform(p) /\ IsInvolution(p))
